@@ -330,7 +330,7 @@ def run(ctx):
     else:
         runs = [("PinParse_thorough.cfg", None, "features 0..60 x 2..5 identifiers x chunk 2..20 x workers 1..2", {"timeout": 3000}),
                 ("PinParse_thorough_sched.cfg", None, "features 0..14, chunk 2..4, workers 1..4: every interleaving", {"timeout": 3000}),
-                ("PinParse_thorough_schema.cfg", None, "schema cross product, features 0..4, all optional-column subsets",
+                ("PinParse_thorough_schema.cfg", None, "schema cross product, features 0..3, all optional-column subsets",
                  {"timeout": 3000})]
     runs += [("PinParse_quick_err.cfg", None, "missing required column / label 2, -3", {}),
              ("PinParse_asis.cfg", "IdsTogether", "chunking before 799639f: identifier columns split across column chunks", {}),
@@ -392,7 +392,7 @@ def run(ctx):
     needed = ["drop a feature", "reorder rows", "flip a target", "wrong spectrum key (column dropped)",
               "raised instead of parsed", "parsed instead of raised"]
     missing = [n for n in needed if not by_name.get(n)]
-    if missing:
+    if missing and not (ctx.violations or ctx.known_hits):
         raise MachineryError("no accepted trace to build the negative controls %s from" % missing)
     allbad = []
     for name, lst in sorted(by_name.items()):
@@ -412,7 +412,7 @@ def run(ctx):
              "casings, 3 label encodings and NaN placements for 0..%d features, (c) each required column missing and "
              "labels 2 / -3; each rendered as .pin / .tab / .parquet with 3..40 rows; distinct = distinct "
              "(header, casing, encoding, NaN class, chunk, row-chunk class, error class, format)"
-             % ((45, "2..6 and 19", 3) if q else (60, "2..20", 4)),
+             % ((45, "2..6 and 19", 2) if q else (60, "2..20", 3)),
         exhaustive=True)
 
 
